@@ -44,13 +44,14 @@ def confirm(src, wt, sid):
     names = []
     for d in demos:
         if d.endswith("_test.go"):
-            dst = os.path.join(wt, "internal/server", "zz_" + sid.replace("-", "_") + "_" + d)
+            pkgdir = "internal/cmd" if re.search(r"^package cmd\b", open(os.path.join(src, d)).read(), re.M) else "internal/server"
+            dst = os.path.join(wt, pkgdir, "zz_" + sid.replace("-", "_") + "_" + d)
             shutil.copy(os.path.join(src, d), dst)
             names += re.findall(r"^func (Test\w+)\(", open(dst).read(), re.M)
     if not names:
         print("no demo test found"); clean(wt); return False
     runre = "^(" + "|".join(names) + ")$"
-    cmd = "go test -mod=mod -vet=off -count=1 -run '%s' ./internal/server/" % runre
+    cmd = "go test -mod=mod -vet=off -count=1 -run '%s' ./internal/server/ ./internal/cmd/" % runre
     rc1, o1 = sh(cmd, cwd=wt)
     ran.append(cmd + "  (with change) -> exit %d" % rc1)
     sh(["git", "apply", "-R", patch], cwd=wt)
